@@ -50,9 +50,11 @@ func c12GenBkt1(dir string, rng *zz.RNG, s *zz.Session, thorough bool) []string 
 		nsig  int
 		nmeta int
 	}
-	specs := []spec{{1, 0}, {12, 2}, {200, 1}}
+	// at most one metadata entry: the deprecated writer serialises the map in Go's map iteration order, and a generated
+	// file must be a function of the seed alone
+	specs := []spec{{1, 0}, {12, 1}, {200, 1}}
 	if thorough {
-		specs = append(specs, spec{3000, 3})
+		specs = append(specs, spec{3000, 1})
 	}
 	for si, sp := range specs {
 		path := filepath.Join(dir, "v1-"+string(rune('a'+si))+".bkt")
@@ -128,7 +130,7 @@ func TestVerifC12(t *testing.T) {
 	defer r.Close()
 	r.Print = func(op string, res c12.Result) string {
 		if res.Class == "ok" || res.Class == "err" {
-			return "nopanic" + os.Getenv("C12DBG") + map[bool]string{true: res.Class, false: ""}[os.Getenv("C12DBG") != ""]
+			return "nopanic"
 		}
 		return res.Class
 	}
